@@ -10,7 +10,7 @@ RESTORE_TB = [KERNEL, TRANSLATOR + " (restorer-generated.go -> Gen/RestTbl.v sta
 
 PROPS = {
     "C04": dict(
-        unknown_keys=["restorer-generated.go", "decorations-generated.go", "decorations-node-generated.go", "dst.go", "decorations-types-generated.go"],
+        unknown_keys=["restorer-generated.go", "decorations-generated.go", "decorations-node-generated.go", "dst.go", "decorations-types-generated.go", "data.go"],
         trusted_base=RESTORE_TB,
         assumptions=["'documented point' is tied to the code by the table obligations (each point rendered once, in the order of the Decorations struct, under its own name) and, on the implementation, by the oracle's doc-example check",
                      "decorations that are neither comments nor newlines are not rendered (C04_other_strings_dropped)",
